@@ -24,6 +24,18 @@ theorem C13_pool_bound {c : Cfg} {σ : Sys} (r : Reach c σ) :
 theorem C13_slots_exact {c : Cfg} {σ : Sys} (r : Reach c σ) : cnt σ.loc c.n + σ.slots = c.pool :=
   (reach_inv r).pool
 
+/-- the counter never leaves `0 .. pool`: it is a natural number that is decremented only under the guard `0 < slots`
+    (`Guard.start`), so it cannot wrap below zero, and by `C13_slots_exact` it never exceeds the pool size.  The trace
+    validator relies on this: a logged counter value above the pool size is not a state of the model. -/
+theorem C13_slots_bounded {c : Cfg} {σ : Sys} (r : Reach c σ) : σ.slots ≤ c.pool := by
+  have := C13_slots_exact r; omega
+
+/-- a reservation never succeeds on an empty pool and always takes exactly one slot -/
+theorem C13_reserve_guarded {c : Cfg} {σ : Sys} {s : Nat} {f : Ev} {k : Nat}
+    (g : Guard c σ s .WaitingToRun f .StartProcess k) : 0 < σ.slots ∧ k + 1 = σ.slots := by
+  cases g with
+  | start _ _ hs => exact ⟨hs, by omega⟩
+
 /-- with a pool of 1 no two step commands ever run at the same time: the executions are totally ordered -/
 theorem C13_pool_one_serial {c : Cfg} {σ : Sys} (r : Reach c σ) (hp : c.pool = 1) (s t : Nat)
     (hs : s < c.n) (ht : t < c.n) (h1 : σ.proc s = .running) (h2 : σ.proc t = .running) : s = t := by
@@ -76,6 +88,8 @@ theorem C13_F6_unrepaired_counterexample :
 #print axioms C13_F6_unrepaired_counterexample
 #print axioms C13_pool_bound
 #print axioms C13_slots_exact
+#print axioms C13_slots_bounded
+#print axioms C13_reserve_guarded
 #print axioms C13_pool_one_serial
 #print axioms C13_serial_respects_deps
 end Sched
